@@ -27,10 +27,11 @@
                   symbolic-size allocation) look reachable to the symbolic execution: no verdict */
 #define H_MTYPE MIR_T_U16
 #endif
-/* Base and index registers of memory operands are ABSENT in the checked obligations: mir.c prints them through
+/* Base and index registers of memory operands: mir.c prints them through
    `(op.mode == MIR_OP_MEM ? output_reg : output_var) (ctx, f, func, reg)`, and cbmc 6.11's function-pointer removal
    resolves that call to [default_mem_protect, default_realloc] (spurious "dereferenced function pointer must be one
-   of" failure, the real callee is never entered).  -DH_MEM_REGS=1 makes them symbolic (for use with a fixed cbmc). */
+   of" failure, the real callee is never entered).  The obligations with -DH_MEM_REGS=1 (registers symbolic: absent or
+   one of the five) are built with goto-instrument --restrict-function-pointer naming the two real targets. */
 #if defined(H_MEM_REGS) && H_MEM_REGS
 #define H_MEM_REG ((MIR_reg_t) nd_below (6))
 #else
